@@ -35,8 +35,17 @@ class C14(core.Check):
     technique = ("Lean 4 theorems over byte-level models of urllib.parse quote/quote_plus/unquote/unquote_plus/parse_qsl, httping.updateQargsQuery/packHeader, "
                  "Requester.build and Requestant.parseHead/parseBody; always-safe set, METHODS and default header values regenerated from the live modules; "
                  "differential run (built bytes and recovered fields) against the real Requester / Requestant / buildEnviron; independent oracle from the spec")
-    level_text = ""
-    level_note = ""
+    level_text = ("Proved for ALL byte strings / lists (unbounded, structural induction): unquote_quote, unquote_plus_quote_plus (+ the form variant), "
+                  "qargs_roundtrip (parse_qsl(QUERY_STRING) of the packed query gives back every key/value list, duplicates and empty strings included), "
+                  "packed_field_chars, header_line_roundtrip (every name without ':' and EVERY value), and the composition request_roundtrip_partial: for every "
+                  "spec satisfying the explicit decidable predicate WF (inhabited by an example) recover(build spec) = view spec — method, path, query list, all "
+                  "header fields on the wire in order, body — with spec_headers_recovered and body_recovered tying the view back to the caller's own fields. "
+                  "_partial because WF excludes the two recorded defects, which are proved to fail on witnesses: repeated_header_keeps_last (F50, C14-K1) and "
+                  "path_tab_is_dropped (C14-K2).  The always-safe table, METHODS and the default header values the proofs use are re-extracted on every run; "
+                  "the hand-written models (incl. the Lean urllib.parse) are tied to the code and to the stdlib by a seeded differential run of built bytes and recovered fields.")
+    level_note = ("Trusted: Lean kernel + propext/Classical.choice/Quot.sound; translator harness/extract/httpflow.py; UTF-8/latin-1 codecs and json.dumps of CPython "
+                  "(text crosses as bytes; the JSON text is a parameter); the sampled correspondence for the hand-written build/recover models; chunked request bodies, "
+                  "multipart forms and paths that urlsplit would re-split ('?', '#', leading '//') are declined by the model (Exn.unmodelled) and never generated.")
     quick_n = 1200
     thorough_n = 30000
     rule = ("case = (method in any case, unicode path with reserved / percent-look-alike / non-ASCII characters, query dict with arbitrary string keys and values, "
@@ -67,6 +76,24 @@ class C14(core.Check):
             ("req", b"Options", u("/\U0001F600/ x"), [(u("中"), u("文"))] * 1, [(b"accept-encoding", b"gzip")], 0, b"", True),
             ("quote", u("a b/é%+~")), ("unquote", b"%41%zz%%4a%4"), ("unquote_plus", b"a+b%2Bc%"), ("parse_qsl", b"a=1&&b&=c&d=%26+x&=&&"), ("parse_qsl", b""),
         ]
+
+    def exhaustive(self, tier):
+        if tier != "thorough":
+            return [], None
+        cs = []
+        for cp in range(0, 0x300):
+            ch = chr(cp)
+            if ch in "\t\r\n":
+                continue
+            b = ch.encode("utf-8")
+            cs.append(("req", b"GET", b"/a" + (b if ch not in "?#" else b"") + b"z", [(b, b"v" + b), (b"k" + b + b"k", b)], [], 0, b"", False))
+        for x in range(32, 256):
+            if x not in (10, 13):
+                cs.append(("req", b"POST", b"/h", [], [(b"X-V", bytes([x])), (b"X-W", b"a" + bytes([x]) + b"b")], 0, bytes([x]), False))
+        for x in range(256):
+            cs.append(("quote", bytes([x, 65, x])))
+            cs.append(("quote_plus", bytes([x, 32, x])))
+        return cs, "every code point < U+0300 as path character, query key and query value; every byte 32..255 (except CR LF) as header value and body; quote/quote_plus of every byte"
 
     def _text(self, rng, n, atoms):
         return "".join(rng.choice(atoms) for _ in range(n))
@@ -278,33 +305,42 @@ class C14(core.Check):
             bad.append("content-length")
         return bad
 
+    def _k1(self, case, obs):
+        """every spec header is recovered except the non-last values of repeated names, and each last value IS recovered"""
+        headers = case[4]
+        d = _dups(headers)
+        if not d or obs[1][0] != "ok":
+            return False
+        rheaders = obs[1][4]
+        for n, v in headers:
+            if (n.lower(), v) not in rheaders and n.lower() not in d:
+                return False
+        return all((k, vs[-1]) in rheaders for k, vs in d.items())
+
+    def _k2(self, case, obs):
+        path = case[2]
+        if not any(c in path for c in b"\t\r\n") or obs[1][0] != "ok":
+            return False
+        stripped = bytes(c for c in path if c not in b"\t\r\n")
+        return obs[1][2] == stripped and obs[2][3] == stripped
+
     def known(self, case, obs, clauses):
-        if case[0] != "req":
+        if case[0] != "req" or isinstance(obs[0], tuple):
             return None
-        _, method, path, qargs, headers, bkind, bval, explicit = case
-        if clauses == ["header-values"]:
-            d = _dups(headers)
-            rheaders = obs[1][4]
-            # every spec header is recovered except the non-last values of repeated names, and the last value IS recovered
-            ok = bool(d)
-            for n, v in headers:
-                if (n.lower(), v) in rheaders:
-                    continue
-                if n.lower() not in d:
-                    ok = False
-            for k, vs in d.items():
-                if (k, vs[-1]) not in rheaders:
-                    ok = False
-            if ok:
-                return "C14-K1"
-        if any(c in path for c in b"\t\r\n") and not isinstance(obs[0], tuple):
+        path = case[2]
+        if clauses == ["server-rejected-request"]:
+            # C14-K2, other face: what is left of the path starts with '//' and is re-read by urlsplit as an (empty) network location
             stripped = bytes(c for c in path if c not in b"\t\r\n")
-            if clauses == ["path"] and obs[1][0] == "ok" and obs[1][2] == stripped and obs[2][3] == stripped:
+            if any(c in path for c in b"\t\r\n") and stripped.startswith(b"//"):
                 return "C14-K2"
-            # same defect, other face: what is left starts with '//' and is re-read by urlsplit as an (empty) network location
-            if clauses == ["server-rejected-request"] and stripped.startswith(b"//"):
-                return "C14-K2"
-        return None
+            return None
+        explained = {"header-values": ("C14-K1", self._k1), "path": ("C14-K2", self._k2)}
+        ids = []
+        for c in clauses:
+            if c not in explained or not explained[c][1](case, obs):
+                return None
+            ids.append(explained[c][0])
+        return ids[0] if ids else None
 
     def nontrivial(self, case, obs):
         if case[0] != "req":
